@@ -29,6 +29,9 @@ SEQ_OPS = {'apply_local_op', 'spatial_inversion', 'roll_mps_unit_cell', 'enlarge
            'swap_sites', 'canonical_form', 'add', 'apply_local_term'}
 
 
+SEQ3_OPS = {'apply_local_op', 'spatial_inversion', 'roll_mps_unit_cell', 'extract_segment', 'swap_sites'}
+
+
 def cfg(seed, sample, maxl, maxconv, ops=ALL_OPS, bcs=('finite', 'segment', 'infinite')):
     return dict(spec='Spec9', constants=dict(Seed=seed, Sample=sample, MaxL=maxl, MaxConv=maxconv, BCs=set(bcs),
                                              Ctors={'new', 'product'}, Acts=set(), Ops=set(ops)),
@@ -93,9 +96,11 @@ def h_group(rp, l, o):
 
 def h_group_split(rp, l, o):
     rem1 = rp.psi.L % l['n'] == 1
+    chi0 = max(rp.psi.chi)
     hm.quiet(rp.psi.group_sites, l['n'])
+    more = rp.psi.L > 1 and chi0 > max(rp.psi.chi)     # the default trunc_par chi_max = max(grouped chi) truncates
     hm.quiet(rp.psi.group_split)
-    return dict(sig=dict(last_group_single_site=rem1))
+    return dict(sig=dict(last_group_single_site=rem1, split_needs_more_chi=more))
 
 
 def h_enlarge_chi(rp, l, o):
@@ -182,12 +187,12 @@ def check(ctx):
                'total charge (comparison up to a global sign after the first Jordan-Wigner operator)')
     ctx.exhaustive = not quick
     t0 = time.time()
-    n1 = mc_and_replay(ctx, 'wide', cfg(seed, 211 if quick else 7, 4, 1), spec=SPEC, handlers=HANDLERS, leaf=leaf(1))
+    n1 = mc_and_replay(ctx, 'wide', cfg(seed, 211 if quick else 29, 4, 1), spec=SPEC, handlers=HANDLERS, leaf=leaf(1))
     seq_ops = SEQ_OPS if quick else ALL_OPS
-    n2 = mc_and_replay(ctx, 'seq2', cfg(seed, 4001 if quick else 101, 3, 2, ops=seq_ops), spec=SPEC, handlers=HANDLERS, leaf=leaf(2))
+    n2 = mc_and_replay(ctx, 'seq2', cfg(seed, 4001 if quick else 601, 3, 2, ops=seq_ops), spec=SPEC, handlers=HANDLERS, leaf=leaf(2))
     n3 = 0
     if not quick:
-        n3 = mc_and_replay(ctx, 'seq3', cfg(seed, 2003, 3, 3), spec=SPEC, handlers=HANDLERS, leaf=leaf(3))
+        n3 = mc_and_replay(ctx, 'seq3', cfg(seed, 9973, 3, 3, ops=SEQ3_OPS), spec=SPEC, handlers=HANDLERS, leaf=leaf(3))
     ctx.notes['behaviours'] = dict(wide=n1, seq2=n2, seq3=n3)
     ctx.notes['replay_wall_s'] = round(time.time() - t0, 1)
 
